@@ -875,3 +875,242 @@ def shrink(sheet, doc, fails, max_steps=400):
         nch = shrink_children(list(root[3]), rb)
         doc = rb(nch)
     return sheet, doc
+
+
+# ---------------------------------------------------------------------------------------------------
+# marker programs for the variables-stack correspondence: every binding has a distinct printable value,
+# every observation is <u n="x"><xsl:value-of select="$x"/></u> at the top level of the main output
+
+class VarsGen:
+    def __init__(self, r):
+        self.r = r
+        self.site = 0
+        self.named = []      # (name, params)
+        self.globals = []
+        self.budget = 30
+
+    def lit(self):
+        self.site += 1
+        return "b%d" % self.site
+
+    def value(self, vis):
+        """select expression: a literal, or concat(literal, '<', $x, '>' ...) over visible variables"""
+        r = self.r
+        l = self.lit()
+        names = sorted(vis)
+        if not names or r.random() < 0.5:
+            return ("select", ("lit", l))
+        args = [("lit", l)]
+        for _ in range(r.choice([1, 1, 2])):
+            args += [("lit", "<"), ("var", r.choice(names)), ("lit", ">")]
+        return ("select", ("fn", "concat", args))
+
+    def marker(self, vis):
+        x = self.r.choice(sorted(vis))
+        return ("lre", "u", [("n", [x])], [("value-of", ("var", x))])
+
+    def body(self, vis, loc, d, named_idx, in_rtf=False):
+        """vis: visible names (locals, params, globals); loc: names bound locally in this template"""
+        r = self.r
+        vis, loc = set(vis), set(loc)
+        out = []
+        for _ in range(r.choice([1, 2, 2, 3, 4]) if d > 0 else r.choice([1, 2])):
+            if self.budget <= 0:
+                break
+            self.budget -= 1
+            k = r.random()
+            if k < 0.3 and vis and not in_rtf:
+                out.append(self.marker(vis))
+            elif k < 0.5:
+                pool = [n for n in ["v1", "v2", "g1", "g2", "pa"] if n not in loc and "r" + n not in loc]
+                if not pool:
+                    continue
+                name = r.choice(pool)
+                if d > 0 and r.random() < 0.2:
+                    vd = ("body", self.body(vis, loc | {name}, d - 1, named_idx, in_rtf=True) or [("lit", "z")])
+                    out.append(("variable", "r" + name, vd))
+                    loc.add("r" + name)
+                    continue
+                out.append(("variable", name, self.value(vis)))
+                vis.add(name)
+                loc.add(name)
+            elif k < 0.58 and d > 0:
+                out.append(("lre", "e", [], self.body(vis, loc, d - 1, named_idx, in_rtf)))
+            elif k < 0.66 and d > 0:
+                out.append(("if", ("fn", r.choice(["true", "true", "false"]), []), self.body(vis, loc, d - 1, named_idx, in_rtf)))
+            elif k < 0.78 and d > 0:
+                sel = r.choice([P([("child", N(None), [])]), ("union", [P([("child", N("a"), [])]), P([("child", N("b"), [])])]),
+                                P([("child", N("c"), [])])])
+                out.append(("for-each", sel, [], self.body(vis, loc, d - 1, named_idx, in_rtf)))
+            elif k < 0.9 and not in_rtf:
+                wps = [(n, self.value(vis)) for n in r.sample(["pa", "pb", "pc"], r.choice([0, 1, 1, 2, 3]))]
+                r.shuffle(wps)
+                out.append(("apply", P([("child", N(None), [])]) if r.random() < 0.8 else None, r.choice([None, None, "m1"]), [], wps))
+            elif not in_rtf:
+                cands = [t for i, t in enumerate(self.named) if i < named_idx]
+                if not cands:
+                    continue
+                name, params = r.choice(cands)
+                wps = [(n, self.value(vis)) for n in r.sample(["pa", "pb", "pc"], r.choice([0, 1, 2, 3]))]
+                r.shuffle(wps)
+                out.append(("call", name, wps))
+        return out
+
+    def template(self, match, mode, name, named_idx):
+        r = self.r
+        pnames = r.sample(["pa", "pb", "pc"], r.choice([0, 0, 1, 2, 3]))
+        params = [(n, ("select", ("lit", self.lit()))) for n in pnames]
+        self.budget = max(self.budget, 6)
+        vis = set(self.globals) | set(pnames)
+        d = {"params": params, "body": self.body(vis, set(pnames), r.choice([1, 2, 2, 3]), named_idx)}
+        if match is not None:
+            d["match"] = match
+        if mode:
+            d["mode"] = mode
+        if name:
+            d["name"] = name
+        return ("template", d), pnames
+
+    def sheet(self):
+        r = self.r
+        imports = []
+        gl_imp = []
+        if r.random() < 0.3:
+            self.globals = ["g1"]
+            gl_imp = [("variable", "g1", ("select", ("lit", self.lit())))]
+            t, _ = self.template([P([("child", N("c"), [])])], None, None, 0)
+            imports.append({"imports": [], "tops": gl_imp + [t]})
+        tops = []
+        for g in r.sample(["g1", "g2"], r.choice([0, 1, 2, 2])):
+            tops.append((r.choice(["variable", "variable", "param"]), g, ("select", ("lit", self.lit()))))
+            if g not in self.globals:
+                self.globals.append(g)
+        for i in range(r.choice([0, 1, 2, 3])):
+            t, pn = self.template(None, None, "t%d" % i, i)
+            tops.append(t)
+            self.named.append(("t%d" % i, pn))
+        n_named = len(self.named)
+        t, _ = self.template([P([("root", "root", [])])], None, None, n_named)
+        t[1]["params"] = []          # the initial template gets no with-params; keep it simple
+        t[1]["body"] = [("lre", "out", [], self.body(set(self.globals), set(), 3, n_named))]
+        tops.append(t)
+        for nm in r.sample(["a", "b", "c", "d"], r.choice([2, 3, 4])):
+            for mode in ([None, "m1"] if r.random() < 0.3 else [None]):
+                t, _ = self.template([P([("child", N(nm), [])])], mode, None, n_named)
+                tops.append(t)
+        return {"imports": imports, "tops": tops}
+
+
+def gen_vars_doc(r):
+    def el(d):
+        ch = [el(d - 1) for _ in range(r.choice([0, 1, 2, 3]))] if d > 0 else []
+        return ("e", r.choice(["a", "b", "c", "a", "b"]), [], ch)
+    return [("e", "d", [], [el(2) for _ in range(r.choice([1, 2, 3]))])]
+
+
+def gen_vars_case(r):
+    g = VarsGen(r)
+    return g.sheet(), gen_vars_doc(r)
+
+
+def vs_tokens(it, sheet):
+    """model input line (without id) from an instrumented reference run: globals in push order + the tree"""
+    names = {}
+
+    def nid(n):
+        return names.setdefault(n, len(names) + 1)
+    toks = []
+    # Stylesheet::pushTopLevelVariables: imported stylesheets first (lowest precedence first), then own
+    gl = []
+
+    def collect(sh):
+        for imp in sh.get("imports", []):
+            collect(imp)
+        for t in sh["tops"]:
+            if t[0] in ("variable", "param"):
+                gl.append(t)
+            elif t[0] == "include":
+                collect(t[1])
+    collect(sheet)
+    ginst = {}
+    for t in gl:
+        it.insts.append([t[2][1][1]] if t[2][0] == "select" and t[2][1][0] == "lit" else None)
+        ginst[id(t)] = len(it.insts)
+        toks.append("G,%d,%d" % (nid(t[1]), len(it.insts)))
+    toks.append(";")
+
+    def go(n):
+        if n[0] == "U":
+            toks.append("U,%d" % nid(n[1]))
+        elif n[0] == "V":
+            toks.append("V,%d,%d" % (nid(n[1]), n[2]))
+        elif n[0] == "B":
+            toks.append("(B,%d" % n[1])
+            for c in n[2]:
+                go(c)
+            toks.append(")")
+        elif n[0] == "I":
+            toks.append("(I")
+            for nm, inst in n[1]:
+                toks.append("w,%d,%d" % (nid(nm), inst))
+            for c in n[2]:
+                go(c)
+            toks.append(")")
+        elif n[0] == "T":
+            toks.append("(T,%d" % n[1])
+            for nm, inst in n[2]:
+                toks.append("p,%d,%d" % (nid(nm), inst))
+            for c in n[3]:
+                go(c)
+            toks.append(")")
+    root = [n for n in it.vroot if n[0] == "T"]
+    go(root[0])
+    return " ".join(toks), names
+
+
+def vs_expected_markers(it, obs):
+    """obs: list of binding ids (int) or None per use index, as answered by the model. Returns the marker
+    sequence [(name, printed value)] the library should output."""
+    memo = {}
+
+    def val(inst, depth=0):
+        if inst is None:
+            return "?"
+        if inst in memo:
+            return memo[inst]
+        parts = it.insts[inst - 1]
+        if parts is None or depth > 50:
+            return "#"
+        s = "".join(p if isinstance(p, str) else val(obs[p[1]] if p[1] < len(obs) else None, depth + 1) for p in parts)
+        memo[inst] = s
+        return s
+    out = []
+
+    def go(n):
+        if n[0] == "U":
+            if n[3]:
+                out.append((n[1], val(obs[n[2]] if n[2] < len(obs) else None)))
+        elif n[0] in ("B", "I"):
+            for c in n[2]:
+                go(c)
+        elif n[0] == "T":
+            for c in n[3]:
+                go(c)
+    for n in it.vroot:
+        go(n)
+    return out
+
+
+def markers_of_output(tree):
+    out = []
+
+    def go(l):
+        for n in l:
+            if n[0] == "e":
+                if n[1] == ("", "u"):
+                    nm = [v for u, l2, v in n[2] if l2 == "n"]
+                    out.append((nm[0] if nm else "", "".join(c[1] for c in n[3] if c[0] == "t")))
+                else:
+                    go(n[3])
+    go(tree)
+    return out
